@@ -18,6 +18,7 @@ pub fn spec() -> PropSpec {
         assumptions: &["'hexadecimal digit' = ASCII 0-9 a-f A-F (char::to_digit(16)); every other character, including non-ASCII digits, is decoration", "no line feed inside a line"],
         workers: 16,
         also_nochk: false,
+        fuzz_target: Some("fz_line"),
         quick_budget_s: 900,
         thorough_budget_s: 3600,
         min_nontrivial_quick: 100_000,
@@ -192,6 +193,7 @@ fn why_not(d: &str) -> String {
 }
 
 fn run(c: &mut Ctx) {
+    super::replay_fuzz_corpus(c, "fz_line", &["C02", "C01"]);
     // deterministic sweep over every digit count, three fillings each, bare and decorated
     let mut idx = 0u64;
     for n in 0..=64usize {
@@ -245,6 +247,12 @@ fn run(c: &mut Ctx) {
 
 fn replay(c: &mut Ctx, case: &Value) {
     c.eval(1);
+    if let Some(r) = super::replay_fuzz_case(case) {
+        if let Err((p, m)) = r {
+            c.fail(format!("[{}] {}", p, m), "fuzz:artifact", case.clone());
+        }
+        return;
+    }
     let opts: Opts = serde_json::from_value(case["opts"].clone()).unwrap_or_default();
     let Ok(lc) = serde_json::from_value::<LineCase>(case["line"].clone()) else { return c.inconclusive("bad replay") };
     if let Err(m) = check_line(&opts, &lc) {
